@@ -16,6 +16,9 @@ RULE = ("tree: one process per case. A case is an action (bench under the virtua
         "formatters. Compared: whole stdout, byte for byte, with the model's rendering; Sb: stdout parses (indentation, glyphs, bars, "
         "row attachment validated) to the skeleton of the tree that ran with exactly these cells, and the recorded calls are exactly "
         "the non-ignored (argument x thread count) runs in order. Non-trivial = at least 3 nodes and model output ok; distinct by case. "
+        "The 'filtered' stream adds positional and --skip filters (with and without --exact) that remove a strict non-empty subset of a "
+        "benchmark's argument cases (last declared, middle, first, all but one) and whole benchmarks/groups; the generator evaluates "
+        "FilterSet::is_match on every display path and hands the model the surviving tree. "
         "The 'odd-names' stream (double/trailing spaces, box-drawing characters inside names) is outside names_ok: compared, not Sb-checked.")
 ASSUMPTIONS = [
     "the tree handed to the painter is the filtered, sorted tree with options resolved per leaf (C13, C15, C16); the harness fixes the order with --sort location",
@@ -194,7 +197,33 @@ def streams(tier, rng):
         go.id = 0
         go.nodes = 0
         odd.append(go.case())
+    gf = Gen(rng)
+    filtered = [c for c in corpus_cases() if " X " in c]
+    seenf = set(filtered)
+    tries = 0
+    while len(filtered) < (300 if tier == "quick" else 6000) and tries < 200000:
+        tries += 1
+        gf.id = 0
+        gf.nodes = 0
+        base = gf.case()
+        action, prof, tops, _ = _parse(base)
+        flt = gen_filters(rng, tops)
+        c = _ser(action, prof, tops, flt)
+        d = c.rsplit(" D ", 1)[1].split(" ")
+        if int(d[0]) == 0 or c in seenf:
+            continue
+        seenf.add(c)
+        filtered.append(c)
+        gf.feat["exact" if flt[0] else "regex"] += 1
+        gf.feat["skip"] += any(not inc for inc, _ in flt[1])
+        gf.feat["positional"] += any(inc for inc, _ in flt[1])
+        gf.feat["argument-case-dropped"] += any(":" in k for k in d[1:])
+        gf.feat["whole-benchmark-dropped"] += any(":" not in k for k in d[1:])
+    cases = [c for c in cases if " X " not in c]
     return [
+        Stream("tree-stdout-filtered", "tree", filtered, compare=cmp_tree, nontrivial=nontrivial, model_input=model_input,
+               hist=dict(gf.feat), impl_timeout=900,
+               describe="filters at argument granularity: --skip / positional, --exact / regex; the model takes the tree after retain"),
         Stream("tree-stdout", "tree", cases, compare=cmp_tree, nontrivial=nontrivial, model_input=model_input,
                hist=dict(g.feat), impl_timeout=900),
         Stream("tree-stdout-odd-names", "tree", odd, compare=cmp_tree, nontrivial=nontrivial, model_input=model_input,
@@ -211,7 +240,22 @@ MANIFEST = {
 
 # ---- shrinking: drop top-level groups / children, simplify benchmarks, while the specification still fails ----
 
+def undec(tok):
+    b = tok.encode("ascii")[1:]
+    out = bytearray()
+    i = 0
+    while i < len(b):
+        if b[i] == 0x25:
+            out.append(int(b[i + 1:i + 3], 16))
+            i += 3
+        else:
+            out.append(b[i])
+            i += 1
+    return out.decode("utf-8")
+
+
 def _parse(case):
+    """-> action, prof, tops, (exact, [(inclusive, text)]) ; the D section is recomputed, never read."""
     t = case.split(" ")
     pos = [0]
 
@@ -230,16 +274,135 @@ def _parse(case):
 
     action, prof = nxt(), nxt()
     assert nxt() == "N"
-    return action, prof, [node() for _ in range(int(nxt()))]
+    tops = [node() for _ in range(int(nxt()))]
+    flt = None
+    if pos[0] < len(t) and t[pos[0]] == "X":
+        nxt()
+        exact = nxt() == "e"
+        k = int(nxt())
+        flt = (exact, [(f[0] == "+", undec(f[1:])) for f in (nxt() for _ in range(k))])
+    return action, prof, tops, flt
 
 
-def _ser(action, prof, tops):
+def leaf_paths(tops):
+    """(key, display path) of everything EntryTree::retain asks the filter about."""
+    out = []
+
+    def walk(prefix, n):
+        name = undec(n[1] if n[0] == "G" else n[2])
+        path = name if prefix is None else prefix + "::" + name
+        if n[0] == "G":
+            for c in n[3]:
+                walk(path, c)
+        elif n[5] is None:
+            out.append((n[1], path))
+        else:
+            for i, a in enumerate(n[5]):
+                out.append(("%s:%d" % (n[1], i), path + "::" + undec(a)))
+
+    for n in tops:
+        walk(None, n)
+    return out
+
+
+def is_match(flt, path):
+    """FilterSet::is_match: a matching --skip filter wins; otherwise a matching positional filter, or no positional filters at all."""
+    import re
+    exact, filters = flt
+
+    def m(text):
+        return text == path if exact else re.search(text, path) is not None
+
+    if any(m(text) for inc, text in filters if not inc):
+        return False
+    incs = [text for inc, text in filters if inc]
+    return (not incs) or any(m(text) for text in incs)
+
+
+def filter_tail(tops, flt):
+    if flt is None:
+        return ""
+    exact, filters = flt
+    drops = [k for k, pth in leaf_paths(tops) if not is_match(flt, pth)]
+    return " X %s %d %s D %d %s" % ("e" if exact else "r", len(filters),
+                                    " ".join(("+" if inc else "-") + enc(text) for inc, text in filters),
+                                    len(drops), " ".join(drops))
+
+
+def _ser(action, prof, tops, flt=None):
     def s(n):
         if n[0] == "G":
             return "G %s %s %d %s" % (n[1], n[2], len(n[3]), " ".join(s(c) for c in n[3]))
         a = "P" if n[5] is None else "A%d %s" % (len(n[5]), " ".join(n[5]))
         return "B %s %s %s %s %s %s %s" % (n[1], n[2], n[3], n[4], a, n[6], n[7])
-    return "%s %s N %d %s" % (action, prof, len(tops), " ".join(s(x) for x in tops))
+    return ("%s %s N %d %s" % (action, prof, len(tops), " ".join(s(x) for x in tops)) + filter_tail(tops, flt)).rstrip()
+
+
+def rx_escape(text):
+    return "".join("\\" + c if c in "\\.+*?()|[]{}^$#&-~" else c for c in text)
+
+
+def gen_filters(rng, tops):
+    """Filters (one mode per case: --exact or regex) that remove a strict, non-empty subset of some
+    benchmark's argument cases (last declared / middle / first / all but one), sometimes also whole
+    benchmarks or groups, written as --skip or as positional filters."""
+    paths = leaf_paths(tops)
+    by_bench = collections.OrderedDict()
+    for k, pth in paths:
+        by_bench.setdefault(k.split(":")[0], []).append((k, pth))
+    multi = [v for v in by_bench.values() if len(v) >= 2]
+    exact = rng.random() < 0.5
+    filters = []
+
+    def lit(pth):
+        if exact:
+            return pth
+        r = rng.random()
+        if r < 0.5:
+            return "^" + rx_escape(pth) + "$"
+        if r < 0.8 and "::" in pth:          # a regex on the tail
+            return "::" + rx_escape(pth.rsplit("::", 1)[1]) + "$"
+        return rx_escape(pth) + "$"
+
+    dropped = set()
+    if multi:
+        for v in rng.sample(multi, min(len(multi), rng.choice([1, 1, 2]))):
+            n = len(v)
+            how = rng.choice(["last", "last", "middle", "first", "all-but-one", "random"])
+            if how == "last":
+                idx = [n - 1]
+            elif how == "middle":
+                idx = [n // 2] if n > 2 else [0]
+            elif how == "first":
+                idx = [0]
+            elif how == "all-but-one":
+                keep = rng.randrange(n)
+                idx = [i for i in range(n) if i != keep]
+            else:
+                idx = sorted(rng.sample(range(n), rng.randrange(1, n)))
+            dropped.update(v[i][1] for i in idx)
+    singles = [v[0][1] for v in by_bench.values()]
+    if rng.random() < 0.35 and len(singles) > 1:
+        dropped.add(rng.choice(singles))           # a whole plain benchmark (or a one-argument one)
+    if not dropped:
+        dropped.add(rng.choice(paths)[1])
+    if rng.random() < 0.6:
+        filters = [(False, lit(p)) for p in sorted(dropped)]
+        if not exact and rng.random() < 0.25 and len(tops) + sum(len(n[3]) for n in tops if n[0] == "G") > 2:
+            g = rng.choice([n for n in tops])      # skip a whole top-level group by prefix
+            if len(tops) > 1:
+                filters.append((False, "^" + rx_escape(undec(g[1])) + "::"))
+    else:
+        keep = [p for _, p in paths if p not in dropped]
+        if not keep:
+            keep = [paths[0][1]]
+        if not exact and rng.random() < 0.3:
+            # keep whole top-level groups by prefix and skip the chosen cases
+            filters = [(True, "^" + rx_escape(undec(n[1])) + "::") for n in tops if rng.random() < 0.8] or [(True, "::")]
+            filters += [(False, lit(p)) for p in sorted(dropped)]
+        else:
+            filters = [(True, lit(p)) for p in keep]
+    return (exact, filters)
 
 
 def _variants(tops):
@@ -286,7 +449,7 @@ def _variants(tops):
 def shrink(item, rerun):
     if not item.get("case") or item.get("mode") != "tree":
         return item
-    action, prof, tops = _parse(item["case"])
+    action, prof, tops, flt = _parse(item["case"])
     budget = 150
     best = dict(item)
     progress = True
@@ -296,7 +459,7 @@ def shrink(item, rerun):
             if budget <= 0:
                 break
             budget -= 1
-            case = _ser(action, prof, cand)
+            case = _ser(action, prof, cand, flt)
             impl, model, sb = rerun("tree", case, crate=item.get("crate", CRATE), release=False, model_input=model_input, drv=DRV)
             if sb.startswith("false"):
                 tops = cand
